@@ -96,6 +96,10 @@ def calls(sig):
                             except TypeError:
                                 continue
                             res.append((args, kw))
+                            if zz == 'zz':
+                                kw2 = dict(kw)
+                                kw2['aa2'] = 'Y'          # TWO undeclared keywords, passed in non-alphabetical order (zz before aa2)
+                                res.append((args, kw2))
     return res
 
 
@@ -148,6 +152,9 @@ def check_program(case):
                 out.call()
                 if got != want:
                     out.viol('getcallargs-differs', '%s: getcallargs = %r, inspect.getcallargs = %r' % (clab, got, want), va=sig['va'], vk=sig['vk'])
+                elif sig['vk'] and list(got['kwargs'].items()) != list(want['kwargs'].items()):
+                    out.viol('getcallargs-differs', '%s: the keywords bound to **kwargs come in the order %r, the caller passed them (and inspect binds them) as %r' % (
+                        clab, list(got['kwargs']), list(want['kwargs'])), va=sig['va'], vk=sig['vk'], order=True)
                 r = call_with_callargs(f, got)
                 out.call()
                 if r != f(*args, **kw):
@@ -469,6 +476,24 @@ def check_reentrant(case):
             out.viol('cache-evaluation-count', 'cached recursive fib, call sequence %s up to fib(%d): evaluations per argument %s, expected exactly once for each of %s' % (
                 seq, n, dict(sorted(evals.items())), sorted(needed)), reentrant=True, first=(n == seq[0]))
             return out
+    # ---- a cached function that consumes its (list) argument: the combination is the one PASSED, remembered before f runs
+    out.sub()
+    taken = []
+
+    def take(stack):
+        taken.append(list(stack))
+        return stack.pop()
+    ct = cache(take)
+    try:
+        r1 = ct([1, 2, 3])
+        r2 = ct([1, 2, 3])
+        r3 = ct([1, 2])
+        out.call(3)
+        if (r1, r2, r3) != (3, 3, 2) or taken != [[1, 2, 3], [1, 2]]:
+            out.viol('cache-evaluation-count', 'cached take(stack) = stack.pop(): take([1,2,3]), take([1,2,3]), take([1,2]) returned %r with evaluations on %r; expected (3, 3, 2) with '
+                     'evaluations on [[1, 2, 3], [1, 2]]' % ((r1, r2, r3), taken), reentrant=False, mutating_argument=True)
+    except Exception as e:
+        out.viol('cache-raised', 'cached take(stack) raised %s: %s' % (type(e).__name__, e), reentrant=False, mutating_argument=True)
     out.cls('reentrant-%s' % ('deep-first' if seq[0] >= 2 else 'shallow-first'))
     if seq[0] >= 2:
         out.nontrivial()
